@@ -38,7 +38,7 @@ CLASS_FLOORS = {"refused-add": 20, "accepted-add": 50, "collision-same-cell": 5,
                 "equal-checksums-duplicate-accepted": 5, "doc-1.0-collision": 5, "doc-1.1-collision": 5, "doc-1.2-collision": 5,
                 "doc-1.1-clean": 5, "doc-1.2-clean": 5, "situation-constructed": 10, "situation-1.0": 10, "situation-1.1": 10,
                 "situation-1.2": 10, "same-object-readded": 5, "load-then-add-1.0": 5, "load-then-add-1.1": 5,
-                "load-then-add-1.2": 5, "variant-deleted": 20, "clean-document-loaded-into-non-empty-manifest": 20}
+                "load-then-add-1.2": 5, "variant-deleted": 20, "doc-1.1-source-images-under-src": 10, "clean-document-loaded-into-non-empty-manifest": 20}
 for a in domains.IDENTITY_ATTRS:
     CLASS_FLOORS["one-attr-differs-%s-accepted" % a] = 5
 
@@ -413,7 +413,7 @@ def check_document(ctx, pm, Dc):
     collide = bool(m.colliding_pairs())
     ctx.count("doc-%s-%s" % (version, "collision" if collide else "clean"))
     doc = render_doc(pool, placement, version)
-    if len(placement) % 2 == 0:
+    if len(placement) % 2 == 0 and not Dc.get("keep_key_order"):
         from rv import formats as _formats
         doc = _formats.shuffle_keys(doc, random.Random(len(json.dumps(doc))))
     try:
@@ -580,6 +580,26 @@ def run_shard(ctx):
                 check_load_then_add(ctx, pm, Dc, extra)
             collide = check_document(ctx, pm, Dc)
             ctx.case_done({"doc": placement, "v": version, "p": pool[0]["attrs"]["checksums"]}, nontrivial=collide or len(idxs) > 1)
+            if version in ("1.0", "1.1") and len(placement) > 1:
+                # older documents file source images under 'src' (listed FIRST here); the reader re-files them under the
+                # binary architectures of the same variant - a colliding pair stays a colliding pair
+                pair_members = [k0 for k0, p0 in enumerate(placement) if "different-checksums" in pool[p0[2]]["tag"] or p0[2] in (0, 9, 12)]
+                k = rng.choice(pair_members or list(range(len(placement))))
+                v0 = placement[k][0]
+                if any(j != k and p0[0] == v0 for j, p0 in enumerate(placement)):
+                    sp = [list(p0) for p0 in placement]
+                    sp[k][1] = "src"
+                    sp.insert(0, sp.pop(k))
+                    Ds = {"pool": pool, "placement": sp, "version": version, "keep_key_order": True}
+                    ctx.count("doc-%s-source-images-under-src" % version)
+                    check_document(ctx, pm, Ds)
+                if i % 2 == 1:
+                    # both members of the colliding pair are source images of one variant ('src' is its first key)
+                    other = [j for j in range(len(pool)) if j not in pair and "different-checksums" not in pool[j]["tag"]]
+                    v0 = variants[0]
+                    sp = [[v0, "src", pair[0]], [v0, "src", pair[1]], [v0, rng.choice(["x86_64", "i386"]), other[0] if other else pair[0]]]
+                    check_document(ctx, pm, {"pool": pool, "placement": sp, "version": version, "keep_key_order": True})
+                    ctx.count("doc-%s-colliding-pair-both-under-src" % version)
         if i == 1:
             ctx.sample({"document": render_doc(pool, placement[:2], "1.1")})
 
